@@ -70,8 +70,9 @@ META = {
         "R12: read_topmatter appends every front-matter line verbatim (only a strip of line-terminator characters is allowed) and its end-of-block test, evaluated "
         "abstractly on ten constant probe lines, closes the block exactly where the markdown-it front_matter rule does (marker after 0-3 spaces, not after 4; sibling "
         "source re-read for tShift / is_code_block). "
-        "R13: because Sphinx's i18n transform re-parses every msgstr under a ':<translated>' source without front matter (sibling re-read), MystParser.parse writes the merged "
-        "file-level config into the per-read store of the environment after the merge and starts from it, under a guard, for such sources. "
+        "R13: because Sphinx's i18n transform re-parses every msgstr under a ':<translated>' source without front matter (sibling re-read), MystParser.parse stores the config "
+        "the document is rendered with (no assignment to that variable between the store and create_md_parser, whichever function performs the merge) in the per-read store "
+        "of the environment and starts from it, under a guard, for such sources. "
         "The per-field update is located by role (the function that calls validate_field, reached from merge_file_level directly or through one or two "
         "module-level helpers with parameters substituted), so splitting merge_file_level into helpers keeps every rule deciding."
     ),
@@ -2388,17 +2389,24 @@ def r13_reparse_uses_file_level_config(corpus: Corpus, rep: Report, tier: str):
     cfg = get_cfg(f)
     rd, wr = reads[key], writes[key]
     gr = [unparse(t) for t, p in cfg.guards(rd)]
-    # the stored value must be the merged one: the write comes after the merge
-    merges = [n for n in f.local_nodes() if isinstance(n, ast.Assign) and isinstance(n.value, ast.Call) and (dotted(n.value.func) or "").rsplit(".", 1)[-1] in ("merge_file_level", "merge_source_level")]
-    late = all(cfg.paths_avoiding(m_, wr, lambda n: False) for m_ in merges) if merges else False
-    if not merges:
-        raise Unsupported("MystParser.parse: no merge_file_level call found")
-    if not late:
-        rep.violation("C13.R13", k, mod.site(wr), f"`{short(wr, 50)}` stores the config before the front matter is merged into it")
-    elif not any("translated" in g for g in gr) and not gr:
+    # the stored value must be the config the document is rendered with: between the store and the call that builds
+    # the parser from it, the variable is not assigned again (whatever function performs the file-level merge)
+    mk_st = cfg.stmt_of(mk[0])
+
+    def assigns_cvar(n) -> bool:
+        if isinstance(n, ast.Assign):
+            return any(isinstance(x, ast.Name) and x.id == cvar for t in n.targets for x in ast.walk(t))
+        if isinstance(n, (ast.AnnAssign, ast.AugAssign)):
+            return isinstance(n.target, ast.Name) and n.target.id == cvar
+        return False
+
+    stale = [n for n in cfg.nodes if n is not wr and assigns_cvar(n) and cfg.paths_avoiding(wr, n, lambda x: False) and cfg.paths_avoiding(n, mk_st, lambda x: False) and n is not rd]
+    if stale:
+        rep.violation("C13.R13", k, mod.site(wr), f"`{short(wr, 50)}` stores the config before it is final: `{short(stale[0], 60)}` changes `{cvar}` between the store and create_md_parser, so re-parsed messages start from a config without that step (e.g. without the front matter merged in)")
+    elif not gr:
         rep.violation("C13.R13", k, mod.site(rd), f"`{short(rd, 60)}` replaces the starting config for every parse, not only for re-parsed messages")
     else:
-        rep.ok("C13.R13", k, mod.site(rd), f"{key}: written after the merge, read back for re-parsed messages")
+        rep.ok("C13.R13", k, mod.site(rd), f"{key}: the config the document is rendered with is stored, and read back (under `{gr[0][:40]}`) for re-parsed messages")
     rep.expect_min("C13.R13", 1, "MystParser.parse")
 
 
@@ -3580,4 +3588,11 @@ def mutants(corpus: Corpus):
     if first is not None:
         ind = _indent(bm, first)
         out.append(Mutant("c13-renderer-reads-conf-heading-anchors", "C13.R11", bm.rel, splice(bm.src, first, f'if self.sphinx_env is not None and self.sphinx_env.config.myst_heading_anchors == 0:\n{ind}    self._heading_slugs.clear()\n{ind}{_seg(bm, first)}'), expect="heading_anchors"))
+    # R13: the file-level config is stored before the front matter is merged in
+    sp = corpus.mod("parsers.sphinx_")
+    f = sp.func("MystParser.parse")
+    wr = find_node(f, lambda n: isinstance(n, ast.If) and any(isinstance(x, ast.Assign) and isinstance(x.targets[0], ast.Subscript) and "temp_data" in unparse(x.targets[0]) for x in n.body))
+    tr = find_node(f, lambda n: isinstance(n, ast.Try) and "read_topmatter" in unparse(n))
+    if wr is not None and tr is not None and wr in f.node.body and tr in f.node.body and wr.lineno > tr.lineno:
+        out.append(Mutant("c13-file-level-config-stored-before-the-merge", "C13.R13", sp.rel, _splice_many(sp.src, [(tr, _seg(sp, wr) + "\n" + _indent(sp, tr) + _seg(sp, tr)), (wr, "pass")]), expect="before it is final"))
     return out
